@@ -469,3 +469,24 @@ Theorem C02_gen_join_path_tuple_absolute : forall segs p,
   gen_join_path_tuple_c02 ([] :: segs) = Ok p -> hd_error p = Some slash.
 Proof. exact gen_join_path_tuple_c02_absolute. Qed.
 Print Assumptions C02_gen_join_path_tuple_absolute.
+
+(* re-entrancy about the regenerated __call__, with its order premise regenerated as well: the translator found no
+   call of a memoised function at or after the entry of the walk loop (memo_calls_precede_walk), so a request whose
+   item lookups run nested operations is: its own cache accesses, then those operations -- and answers like gen_call *)
+Theorem C02_reentrant_request_derived :
+  memo_calls_precede_walk = true /\
+  forall inner C root q, caches_ok C ->
+    let '(v, ans, C2) := reentrant_req_st inner C root q in
+    v = gen_call root q /\
+    ans = map pure_op (inner_ops inner root
+            (match gen_call_preamble q with Ok (_, path, _, vt, _) => vt ++ gen_split_path_info path | _ => [] end)) /\
+    caches_ok C2 /\ forall later, run_ops_st C2 later = map pure_op later.
+Proof. exact reentrant_request_derived. Qed.
+Print Assumptions C02_reentrant_request_derived.
+
+(* the remainder a `*stararg` / trailing {name:.*} captures is computed in the model: it is the decoded PATH_INFO
+   without the literal pieces and {name} captures in front of it, and nothing else *)
+Theorem C02_route_remainder_spec : forall decoded pieces rem,
+  route_remainder decoded pieces = Some rem <-> decoded = concat pieces ++ rem.
+Proof. exact route_remainder_spec. Qed.
+Print Assumptions C02_route_remainder_spec.
